@@ -519,6 +519,11 @@ def tr_expr(cx, env, e):
             b, tb, pb = tr_expr(cx, env, e.args[1])
             if ta == tb == 'int':
                 return '(Py.max %s %s)' % (a, b), 'int', pa + pb
+        if isinstance(f, ast.Attribute) and f.attr == 'issubset' and len(e.args) == 1 and not e.keywords:
+            a, ta, pa = tr_expr(cx, env, f.value)
+            b, tb, pb = tr_expr(cx, env, e.args[0])
+            if ta == 'tup' and tb == 'tup':
+                return '(Py.issuperset %s %s)' % (b, a), 'bool', pa + pb
         if isinstance(f, ast.Attribute) and f.attr == 'issuperset' and len(e.args) == 1 and not e.keywords:
             a, ta, pa = tr_expr(cx, env, f.value)
             b, tb, pb = tr_expr(cx, env, e.args[0])
